@@ -86,6 +86,11 @@ def handle (l : Line) : Option (Except String String) :=
   | "life.metrics" => some (do   -- the metrics server: a stop-group member like a frontend; stopped means the port is closed
       let imm ← l.bool "immediate"
       pure (s!"served={if imm then "-" else "1"} stopped=1 errs=0 free_at_stop=1 goroutines_left=0 second_cycle=1 listening=0\tmetrics"))
+  -- Stop while an accepted request is inside the tracker logic: the handler holds a wait-group count (UDP) / is an
+  -- active connection of the server (HTTP), so `stopFinish` is not enabled (`C16_udp_stop_leaves_nothing`,
+  -- `C16_http_stop_leaves_nothing`); after the handler and its post-response hook it is, and nothing is left
+  | "life.handler_gate" => some (pure "entered=1 stop_pending_while_handler_runs=1 answered=1 stopped=1 after_done_at_stop=1 goroutines_left=0\thandlergate")
+  | "life.metrics_inflight" => some (pure "request_running_at_stop=1 stopped=1 request_ok=1 stop_completed_before_request=0\tmetricsinflight")
   | "life.metrics_race" => some (do   -- `C16_metrics_stop_leaves_nothing`, at every distance between NewServer and Stop
       let n ← l.nat "n"
       pure (s!"free_at_stop={n}/{n} stop_pending=0 goroutines_left=0\tmetricsrace"))
